@@ -34,30 +34,50 @@ def run_check(pid, root, anchors=None):
     return p.returncode, p.stdout
 
 
-def split_strings(line):
-    """Yield (is_code, text) pieces of a source line; string and char literals and // comments are not code."""
-    out, i, n, cur = [], 0, len(line), ""
-    while i < n:
-        ch = line[i]
-        if ch == '"' or ch == "'":
-            q = ch
-            j = i + 1
-            while j < n and line[j] != q:
-                j += 2 if line[j] == "\\" else 1
+def split_code(text):
+    """Split source text into (is_code, piece) runs; string / char / raw-string literals and comments are not code."""
+    out, i, n, cur = [], 0, len(text), ""
+
+    def flush():
+        nonlocal cur
+        if cur:
             out.append((True, cur))
             cur = ""
-            out.append((False, line[i:j + 1]))
+    while i < n:
+        ch = text[i]
+        m = re.match(r'R"([^()\\ ]{0,16})\(', text[i:i + 20]) if ch == "R" and (i == 0 or not (text[i - 1].isalnum() or text[i - 1] == "_")) else None
+        if m:
+            end = text.find(")" + m.group(1) + '"', i + m.end())
+            end = n if end < 0 else end + len(m.group(1)) + 2
+            flush()
+            out.append((False, text[i:end]))
+            i = end
+            continue
+        if ch == '"' or (ch == "'" and not (i > 0 and text[i - 1].isdigit())):
+            j = i + 1
+            while j < n and text[j] != ch and text[j] != "\n":
+                j += 2 if text[j] == "\\" else 1
+            flush()
+            out.append((False, text[i:j + 1]))
             i = j + 1
             continue
-        if line.startswith("//", i):
-            out.append((True, cur))
-            cur = ""
-            out.append((False, line[i:]))
-            i = n
+        if text.startswith("//", i):
+            j = text.find("\n", i)
+            j = n if j < 0 else j
+            flush()
+            out.append((False, text[i:j]))
+            i = j
+            continue
+        if text.startswith("/*", i):
+            j = text.find("*/", i + 2)
+            j = n if j < 0 else j + 2
+            flush()
+            out.append((False, text[i:j]))
+            i = j
             continue
         cur += ch
         i += 1
-    out.append((True, cur))
+    flush()
     return out
 
 
@@ -88,30 +108,29 @@ def local_names(f):
 
 
 def rename_in_range(lines, l0, l1, names):
-    """Rename whole-word occurrences (outside literals) of the eligible names in lines[l0-1:l1]; a name is dropped if it also occurs
-    as a member / qualified name / callee / template in the range."""
-    text = "\n".join(t for i in range(l0 - 1, min(l1, len(lines))) for c, t in split_strings(lines[i]) if c)
+    """Rename whole-word occurrences (outside literals and comments) of the eligible names in lines[l0-1:l1]; a name is dropped if it
+    also occurs as a member / qualified name / callee / template in the range."""
+    hi = min(l1, len(lines))
+    src = "\n".join(lines[l0 - 1:hi])
+    parts = split_code(src)
+    text = "\n".join(t for c, t in parts if c)
     ok = set()
     for nm in names:
         w = re.escape(nm)
         if re.search(r"(?:\.|->|::)\s*%s\b" % w, text) or re.search(r"\b%s\s*(?:\(|<[^<=]|::)" % w, text) or re.search(r"\b%s_nv\b" % w, text):
-            continue
-        if re.search(r"\[[^\]]*\b%s\b[^\]]*\]\s*(?:\(|\{)" % w, text) and False:
             continue
         ok.add(nm)
     if not ok:
         return 0
     rx = re.compile(r"(?<![\w.])(?<!->)(?<!::)(%s)\b" % "|".join(sorted(map(re.escape, ok), key=len, reverse=True)))
     cnt = 0
-    for i in range(l0 - 1, min(l1, len(lines))):
-        parts = split_strings(lines[i])
-        new = ""
-        for c, t in parts:
-            if c:
-                t, k = rx.subn(lambda m: m.group(1) + "_nv", t)
-                cnt += k
-            new += t
-        lines[i] = new
+    new = ""
+    for c, t in parts:
+        if c:
+            t, k = rx.subn(lambda m: m.group(1) + "_nv", t)
+            cnt += k
+        new += t
+    lines[l0 - 1:hi] = new.split("\n")
     return cnt
 
 
